@@ -355,8 +355,12 @@ pub(crate) fn run(opts: &Opts, report: &mut Report) {
                 if !groups.is_empty() {
                     let mut v = vec![];
                     let (_s, traced) = explore::run(&sc, None, devs, 0, true, &mut v);
+                    // what keeps a run from catching up: a stored matched-blocks record that lists a
+                    // block of the abandoned branch (the recorded finding) - or nothing of the kind
+                    let cause = crate::verif::props::c08::stall_cause(sim, 1);
                     for (class, items) in groups {
                         let moment = if devs.is_empty() { "after-full-sync" } else { "mid-sync" };
+                        let class = if !cause.is_empty() && ["stall", "not-caught-up", "waits-for-abandoned-block"].contains(&class.as_str()) { format!("{}({})", class, cause) } else { class };
                         report.violation(
                             format!("{}/{}", class, moment),
                             format!("[{}] {}", name, items[0]),
